@@ -169,9 +169,9 @@ class Array:
             raise ValueError(f"A fixed length format is needed for an Array, received '{new_dtype}'.")
         if dtype.length == 0:
             raise ValueError(f"A non-zero length format is needed for an Array, received '{new_dtype}'.")
-        self._dtype = dtype
-        if self._dtype.scale == 'auto':
+        if dtype.scale == 'auto':
             raise ValueError("A Dtype with an 'auto' scale factor can only be used when creating a new Array.")
+        self._dtype = dtype
 
     def _create_element(self, value: ElementType) -> Bits:
         """Create Bits from value according to the token_name and token_length"""
